@@ -244,8 +244,10 @@ def run_property(prop, tier, seed, rebaseline=False, only_unit=None):
         "violations": len(violations),
     }
     if not only_unit:
-        os.makedirs(os.path.join(VERIF, "evidence"), exist_ok=True)
-        json.dump(ev, open(os.path.join(VERIF, "evidence", prop + ".json"), "w"), indent=1)
+        # runs against a private tree ($VERIF_REPO, development only) never touch the registered evidence files
+        evdir = os.path.join(VERIF, "evidence") if os.path.realpath(C.REPO) == "/repo" else os.path.join(C.BUILD, "evidence_alt")
+        os.makedirs(evdir, exist_ok=True)
+        json.dump(ev, open(os.path.join(evdir, prop + ".json"), "w"), indent=1)
     for l in out_lines:
         print(l)
     print(f"{prop} tier={tier}: units={len(results)} obligations={n_obl} discharged={n_dis} violations={len(violations)} "
